@@ -68,6 +68,31 @@ ASSUMPTIONS = [
 ]
 
 _S = {}
+_TAB = {}
+
+
+def generate(ctx):
+    """round 4: the data the model copies from the source are re-read by `ast` into Scico/Generated/LinSolveTables.lean on every run"""
+    import linsolve_translate
+
+    t = linsolve_translate.generate()
+    ctx.extra["source_tables"] = {"defaults": {n: dict(d) for n, d in t["defaults"]}, "kwdicts": {c: dict(d) for c, _, d in t["kwdicts"]},
+                                  "checks": {c: len(cs) for c, cs in t["checks"]}, "woodbury": [list(a) for a in t["woodbury"]]}
+    return [("Scico.Generated.LinSolveTables", "defaults of cg/lstsq/bisect/golden/cg_solver and of the solver constructors, default cg/solve "
+             "keyword dicts, guarded raises of every internal_init, Woodbury branch condition: source = model tables (solverTables)")]
+
+
+def _tables(model):
+    """default keyword dictionaries / default arguments as held by the MODEL (`solverTables`, driver op `tables`)"""
+    if not _TAB:
+        import ast as _ast
+
+        r = model.call("tables")
+        _TAB["kw"] = {e[0]: {k: _ast.literal_eval(v) for k, v in e[2]} for e in r["kwdicts"]}
+        _TAB["defaults"] = {e[0]: {k: v for k, v in e[1]} for e in r["defaults"]}
+        CG_DEFAULTS.clear()
+        CG_DEFAULTS.update(_TAB["kw"]["LinearSubproblemSolver"])
+    return _TAB
 
 
 def _setup():
@@ -767,7 +792,9 @@ def run_block(ctx, model, case):
 # life-cycle streams (round 2, seeded C14-n1 / C10-n3): what a solver object does must depend on its own constructor
 # arguments and on the ADMM object it is attached to *now* - not on solver objects built earlier, not on an earlier attachment
 
-CG_DEFAULTS = {"tol": 1e-4, "maxiter": 100}  # documented: "the same as those of scico.solver.cg, except for tol 1e-4 and maxiter 100"
+# documented: "the same as those of scico.solver.cg, except for tol 1e-4 and maxiter 100"; since round 4 the values come from the
+# model's copy of the source tables (`solverTables.kwDicts`, obligation Scico.Generated.LinSolveTables) - filled by _tables(model)
+CG_DEFAULTS = {}
 _KW_POOL = [{"tol": 1e-1, "maxiter": 2}, {"maxiter": 1}, {"tol": 0.5}, {"tol": 1e-12, "maxiter": 300}, {"atol": 4.0}, {"tol": 1e-2, "maxiter": 3}, None]
 
 
@@ -836,6 +863,7 @@ def oracle_kwhist(case):
 
 
 def run_kwhist(ctx, model, case):
+    _tables(model)
     prob = case["problem"]
     n, cplx = prob["n"], prob["cplx"]
     dtc = "c" if cplx else "r"
@@ -989,6 +1017,102 @@ def run_reuse(ctx, model, case):
 
 
 # =============================================================================================
+# class checks of every internal_init (round 4): model `initResult` over the tables re-read from the source
+
+_CC_SOLVERS = ["LinearSubproblemSolver", "MatrixSubproblemSolver", "CircularConvolveSolver", "FBlockCircularConvolveSolver",
+               "G0BlockCircularConvolveSolver"]
+_CC_F = ["none", "zero", "sql2-identity", "sql2-diagonal", "sql2-matrix", "sql2-conv", "sql2-composed", "sql2-conv-weighted", "sql2-composed-weighted", "poisson"]
+_CC_C = ["identity", "diagonal", "matrix", "conv", "composed"]
+
+
+def gen_classcheck(rng):
+    sv = _CC_SOLVERS[int(rng.integers(0, len(_CC_SOLVERS)))]
+    f = _CC_F[int(rng.integers(0, len(_CC_F)))]
+    cs = [_CC_C[int(rng.integers(0, len(_CC_C)))] for _ in range(int(rng.integers(1, 3)))]
+    g0 = str(rng.choice(["sql2", "zero"]))
+    return {"kind": "classcheck", "solver": sv, "f": f, "C": cs, "g0": g0, "cplx": bool(rng.integers(0, 4) == 0) and f != "poisson"}
+
+
+def _cc_build(case):
+    S = _setup()
+    jnp, linop, loss, functional = S["jnp"], S["linop"], S["loss"], S["functional"]
+    dt = _dt(case["cplx"])
+    K, N = 2, 3
+    sh = (K, N)
+    ones = lambda shape: jnp.array(np.ones(shape), dtype=dt)  # noqa: E731
+
+    def mk(kind):
+        if kind == "identity":
+            return linop.Identity(sh, input_dtype=dt)
+        if kind == "diagonal":
+            return linop.Diagonal(2.0 * ones(sh))
+        if kind == "matrix":
+            return linop.MatrixOperator(jnp.array(np.eye(K) + 1.0, dtype=dt), input_cols=N)
+        if kind == "conv":
+            return linop.CircularConvolve(ones((K, 2)), input_shape=sh, ndims=1, input_dtype=dt)
+        return linop.Sum(input_shape=sh, input_dtype=dt, axis=0) @ linop.CircularConvolve(ones((K, 2)), input_shape=sh, ndims=1, input_dtype=dt)
+
+    fk = case["f"]
+    if fk == "none":
+        f = None
+    elif fk == "zero":
+        f = functional.ZeroFunctional()
+    elif fk == "poisson":
+        f = loss.PoissonLoss(y=ones(sh), A=mk("identity"))
+    else:
+        parts = fk.split("-")
+        A = mk(parts[1])
+        y = ones(A.output_shape)
+        W = linop.Diagonal(jnp.array(np.full(A.output_shape, 2.0))) if parts[-1] == "weighted" else None
+        f = loss.SquaredL2Loss(y=y, A=A, scale=1.0, W=W)
+    C_list = [mk(k) for k in case["C"]]
+    g_list = [functional.ZeroFunctional() for _ in C_list]
+    if case["solver"] == "G0BlockCircularConvolveSolver" and case["g0"] == "sql2":
+        g_list[0] = loss.SquaredL2Loss(y=ones(C_list[0].output_shape), scale=0.5)
+    return f, g_list, C_list, jnp.zeros(sh, dtype=dt)
+
+
+def run_classcheck(ctx, model, case):
+    import traceback
+
+    S = _setup()
+    linop, loss, functional, aux, ADMM = S["linop"], S["loss"], S["functional"], S["aux"], S["ADMM"]
+    f, g_list, C_list, x0 = _cc_build(case)
+    svc = getattr(aux, case["solver"])
+    sv = svc(ndims=1) if case["solver"] in ("CircularConvolveSolver", "FBlockCircularConvolveSolver", "G0BlockCircularConvolveSolver") else svc()
+    got, later = "ok", False
+    try:
+        ADMM(f=f, g_list=g_list, C_list=C_list, rho_list=[1.0] * len(C_list), x0=x0, maxiter=1, subproblem_solver=sv)
+    except Exception as e:  # noqa: BLE001
+        last = traceback.extract_tb(e.__traceback__)[-1]
+        if last.name == "internal_init" and last.filename.endswith("_admmaux.py"):
+            got = common.err_kind(e)  # raised by one of the guarded `raise` statements of internal_init itself
+        else:
+            later = True  # the class checks passed; something later failed (shapes, from_operator, ...): not the subject of this stream
+    cls = {"SquaredL2Loss": loss.SquaredL2Loss, "ZeroFunctional": functional.ZeroFunctional, "LinearOperator": linop.LinearOperator,
+           "Diagonal": linop.Diagonal, "MatrixOperator": linop.MatrixOperator, "CircularConvolve": linop.CircularConvolve,
+           "Identity": linop.Identity, "ComposedLinearOperator": linop.ComposedLinearOperator}
+    subj = {"admm.f": f, "admm.g_list[0]": g_list[0], "admm.C_list[0]": C_list[0]}
+    if f is not None and hasattr(f, "A"):
+        subj["admm.f.A"] = f.A
+    if f is not None and hasattr(f, "W"):
+        subj["admm.f.W"] = f.W
+    isinst = [[sname, cname] for sname, obj in subj.items() for cname, c in cls.items() if obj is not None and isinstance(obj, c)]
+    ci = [[cname for cname, c in cls.items() if isinstance(C, c)] for C in C_list]
+    try:
+        model.call("init_check", solver=case["solver"], f_none=f is None, isinst=isinst, ci=ci)
+        want = "ok"
+    except ModelErr as e:
+        want = e.kind
+    ctx.count(f"classcheck:{case['solver']}:{got if not later else 'ok-then-later-failure'}")
+    ctx.case({"kind": "classcheck", "solver": case["solver"], "f": case["f"], "C": case["C"], "result": got}, _key(case))
+    if later and want == "ok":
+        return
+    if got != want:
+        ctx.disagree("c10.classcheck", case, got, want, oracle=lambda c: None)
+
+
+# =============================================================================================
 # set_scale on the loss AFTER the ADMM object was built (round 3; recorded finding `stale-scale-after-init`)
 
 _SS_SOLVERS = ["linear-scico", "linear-jax", "matrix", "generic", "circ", "fblock"]
@@ -1130,12 +1254,12 @@ STALE_WITNESS = {"kind": "setscale", "solver": "matrix", "scale1": 2.0,
 
 # =============================================================================================
 
-RUNNERS = {"dense": run_dense, "history": run_dense, "circ": run_circ, "fblock": run_block, "g0": run_block, "kwhist": run_kwhist, "reuse": run_reuse, "setscale": run_setscale}
+RUNNERS = {"dense": run_dense, "history": run_dense, "circ": run_circ, "fblock": run_block, "g0": run_block, "kwhist": run_kwhist, "reuse": run_reuse, "setscale": run_setscale, "classcheck": run_classcheck}
 GENS = {"dense": gen_dense, "history": gen_history, "circ": gen_circ, "fblock": lambda rng: gen_block(rng, "fblock"), "g0": lambda rng: gen_block(rng, "g0"),
-        "kwhist": gen_kwhist, "reuse": gen_reuse, "setscale": gen_setscale}
+        "kwhist": gen_kwhist, "reuse": gen_reuse, "setscale": gen_setscale, "classcheck": gen_classcheck}
 ORACLES = {"dense": oracle_dense, "history": oracle_dense, "circ": oracle_circ, "fblock": oracle_block, "g0": oracle_block, "kwhist": oracle_kwhist,
            "reuse": oracle_reuse, "setscale": oracle_setscale}
-BUDGET = {"dense": (20, 220), "history": (12, 120), "circ": (30, 300), "fblock": (16, 160), "g0": (16, 160), "kwhist": (10, 80), "reuse": (14, 105), "setscale": (12, 90)}
+BUDGET = {"dense": (20, 220), "history": (12, 120), "circ": (30, 300), "fblock": (16, 160), "g0": (16, 160), "kwhist": (10, 80), "reuse": (14, 105), "setscale": (12, 90), "classcheck": (40, 400)}
 
 
 
@@ -1193,6 +1317,7 @@ CIRCW_WITNESS = {"kind": "fblock", "K": 1, "N": 2, "cplx": False, "h": [1.0], "k
 
 def correspond(ctx, model):
     _setup()
+    _tables(model)
     cdir = common.CORPUS_DIR / PROP
     for p in sorted(cdir.glob("*.json")) if cdir.exists() else []:
         c = json.loads(p.read_text())
@@ -1256,6 +1381,7 @@ def search(ctx, model, why):
 
 def replay(ctx, model, case):
     _setup()
+    _tables(model)
     c = case.get("case", case)
     kind = c.get("kind")
     orc = ORACLES.get(kind)
